@@ -66,6 +66,9 @@ impl Finding {
         for (k, pat) in &self.pattern {
             let actual: Option<&str> = if k == "verdict" {
                 Some(v.verdict.as_str())
+            } else if k == "detail" {
+                // free-text description of the mismatch (use with {"contains": ..})
+                Some(v.detail.as_str())
             } else {
                 v.sig.get(k).map(|s| s.as_str())
             };
